@@ -9,20 +9,20 @@ var mageMainfileTplString = `//go:build ignore
 package main
 
 import (
-	"context"
+	_context "context"
 	_flag "flag"
 	_fmt "fmt"
 	_ioutil "io/ioutil"
 	_log "log"
-	"os"
-	"os/signal"
+	_os "os"
+	_signal "os/signal"
 	_filepath "path/filepath"
 	_sort "sort"
-	"strconv"
+	_strconv "strconv"
 	_strings "strings"
-	"syscall"
+	_syscall "syscall"
 	_tabwriter "text/tabwriter"
-	"time"
+	_time "time"
 	{{range .Imports}}{{.UniqueName}} "{{.Path}}"
 	{{end}}
 )
@@ -33,16 +33,16 @@ func main() {
 		Verbose       bool          // print out log statements
 		List          bool          // print out a list of targets
 		Help          bool          // print out help for a specific target
-		Timeout       time.Duration // set a timeout to running the targets
+		Timeout       _time.Duration // set a timeout to running the targets
 		Args          []string      // args contain the non-flag command-line arguments
 	}
 
 	parseBool := func(env string) bool {
-		val := os.Getenv(env)
+		val := _os.Getenv(env)
 		if val == "" {
 			return false
 		}		
-		b, err := strconv.ParseBool(val)
+		b, err := _strconv.ParseBool(val)
 		if err != nil {
 			_log.Printf("warning: environment variable %s is not a valid bool value: %v", env, val)
 			return false
@@ -50,12 +50,12 @@ func main() {
 		return b
 	}
 
-	parseDuration := func(env string) time.Duration {
-		val := os.Getenv(env)
+	parseDuration := func(env string) _time.Duration {
+		val := _os.Getenv(env)
 		if val == "" {
 			return 0
 		}		
-		d, err := time.ParseDuration(val)
+		d, err := _time.ParseDuration(val)
 		if err != nil {
 			_log.Printf("warning: environment variable %s is not a valid duration value: %v", env, val)
 			return 0
@@ -64,7 +64,7 @@ func main() {
 	}
 	args := arguments{}
 	fs := _flag.FlagSet{}
-	fs.SetOutput(os.Stdout)
+	fs.SetOutput(_os.Stdout)
 
 	// default flag set with ExitOnError and auto generated PrintDefaults should be sufficient
 	fs.BoolVar(&args.Verbose, "v", parseBool("MAGEFILE_VERBOSE"), "show verbose output when running targets")
@@ -72,7 +72,7 @@ func main() {
 	fs.BoolVar(&args.Help, "h", parseBool("MAGEFILE_HELP"), "print out help for a specific target")
 	fs.DurationVar(&args.Timeout, "t", parseDuration("MAGEFILE_TIMEOUT"), "timeout in duration parsable format (e.g. 5m30s)")
 	fs.Usage = func() {
-		_fmt.Fprintf(os.Stdout, ` + "`" + `
+		_fmt.Fprintf(_os.Stdout, ` + "`" + `
 %s [options] [target]
 
 Commands:
@@ -84,14 +84,14 @@ Options:
   -t <string>
         timeout in duration parsable format (e.g. 5m30s)
   -v    show verbose output when running targets
- ` + "`" + `[1:], _filepath.Base(os.Args[0]))
+ ` + "`" + `[1:], _filepath.Base(_os.Args[0]))
 	}
-	if err := fs.Parse(os.Args[1:]); err != nil {
+	if err := fs.Parse(_os.Args[1:]); err != nil {
 		// flag will have printed out an error already.
 		if err == _flag.ErrHelp {
 			return
 		}
-		os.Exit(2)
+		_os.Exit(2)
 	}
 	args.Args = fs.Args()
 	if args.Help && len(args.Args) == 0 {
@@ -150,7 +150,7 @@ Options:
 
 	colorToLowerString := func (i color) string {
 		if i < 0 || i >= color(len(_color_index)-1) {
-			return "color(" + strconv.FormatInt(int64(i), 10) + ")"
+			return "color(" + _strconv.FormatInt(int64(i), 10) + ")"
 		}
 		return _color_name[_color_index[i]:_color_index[i+1]]
 	}
@@ -190,7 +190,7 @@ Options:
 	// Not supported:
 	// 	windows cmd.exe, powerShell.exe
 	terminalSupportsColor := func() bool {
-		envTerm := os.Getenv("TERM")
+		envTerm := _os.Getenv("TERM")
 		if _, ok := noColorTerms[envTerm]; ok {
 			return false
 		}
@@ -199,13 +199,13 @@ Options:
 
 	// enableColor reports whether the user has requested to enable a color output.
 	enableColor := func() bool {
-		b, _ := strconv.ParseBool(os.Getenv("MAGEFILE_ENABLE_COLOR"))
+		b, _ := _strconv.ParseBool(_os.Getenv("MAGEFILE_ENABLE_COLOR"))
 		return b
 	}
 
 	// targetColor returns the ANSI color which should be used to colorize targets.
 	targetColor := func() string {
-		s, exists := os.LookupEnv("MAGEFILE_TARGET_COLOR")
+		s, exists := _os.LookupEnv("MAGEFILE_TARGET_COLOR")
 		if exists == true {
 			if c, ok := getAnsiColor(s); ok == true {
 				return c
@@ -248,7 +248,7 @@ Options:
 		_sort.Strings(keys)
 
 		_fmt.Println("Targets:")
-		w := _tabwriter.NewWriter(os.Stdout, 0, 4, 4, ' ', 0)
+		w := _tabwriter.NewWriter(_os.Stdout, 0, 4, 4, ' ', 0)
 		for _, name := range keys {
 			_fmt.Fprintf(w, "  %v\t%v\n", printName(name), targets[name])
 		}
@@ -261,7 +261,7 @@ Options:
 		return err
 	}
 
-	var ctx context.Context
+	var ctx _context.Context
 	ctxCancel := func(){}
 
 	// by deferring in a closure, we let the cancel function get replaced
@@ -270,19 +270,19 @@ Options:
 		ctxCancel()
 	}()
 
-	getContext := func() (context.Context, func()) {
+	getContext := func() (_context.Context, func()) {
 		if ctx == nil {
 			if args.Timeout != 0 {
-				ctx, ctxCancel = context.WithTimeout(context.Background(), args.Timeout)
+				ctx, ctxCancel = _context.WithTimeout(_context.Background(), args.Timeout)
 			} else {
-				ctx, ctxCancel = context.WithCancel(context.Background())
+				ctx, ctxCancel = _context.WithCancel(_context.Background())
 			}
 		}
 
 		return ctx, ctxCancel
 	}
 
-	runTarget := func(logger *_log.Logger, fn func(context.Context) error) interface{} {
+	runTarget := func(logger *_log.Logger, fn func(_context.Context) error) interface{} {
 		var err interface{}
 		ctx, cancel := getContext()
 		d := make(chan interface{})
@@ -294,13 +294,13 @@ Options:
 			err := fn(ctx)
 			d <- err
 		}()
-		sigCh := make(chan os.Signal, 1)
-		signal.Notify(sigCh, syscall.SIGINT)
+		sigCh := make(chan _os.Signal, 1)
+		_signal.Notify(sigCh, _syscall.SIGINT)
 		select {
 		case <-sigCh:
 			logger.Println("cancelling mage targets, waiting up to 5 seconds for cleanup...")
 			cancel()
-			cleanupCh := time.After(5 * time.Second)
+			cleanupCh := _time.After(5 * _time.Second)
 
 			select {
 			// target exited by itself
@@ -336,29 +336,29 @@ Options:
 				ExitStatus() int
 			}
 			if c, ok := err.(code); ok {
-				os.Exit(c.ExitStatus())
+				_os.Exit(c.ExitStatus())
 			}
-			os.Exit(1)
+			_os.Exit(1)
 		}
 	}
 	_ = handleError
 
 	// Set MAGEFILE_VERBOSE so mg.Verbose() reflects the flag value.
 	if args.Verbose {
-		os.Setenv("MAGEFILE_VERBOSE", "1")
+		_os.Setenv("MAGEFILE_VERBOSE", "1")
 	} else {
-		os.Setenv("MAGEFILE_VERBOSE", "0")
+		_os.Setenv("MAGEFILE_VERBOSE", "0")
 	}
 
 	_log.SetFlags(0)
 	if !args.Verbose {
 		_log.SetOutput(_ioutil.Discard)
 	}
-	logger := _log.New(os.Stderr, "", 0)
+	logger := _log.New(_os.Stderr, "", 0)
 	if args.List {
 		if err := list(); err != nil {
 			_log.Println(err)
-			os.Exit(1)
+			_os.Exit(1)
 		}
 		return
 	}
@@ -366,7 +366,7 @@ Options:
 	if args.Help {
 		if len(args.Args) < 1 {
 			logger.Println("no target specified")
-			os.Exit(2)
+			_os.Exit(2)
 		}
 		switch _strings.ToLower(args.Args[0]) {
 			{{range .Funcs -}}
@@ -409,22 +409,22 @@ Options:
 			{{end -}}
 			default:
 				logger.Printf("Unknown target: %q\n", args.Args[0])
-				os.Exit(2)
+				_os.Exit(2)
 		}
 	}
 	if len(args.Args) < 1 {
 	{{- if .DefaultFunc.Name}}
-		ignoreDefault, _ := strconv.ParseBool(os.Getenv("MAGEFILE_IGNOREDEFAULT"))
+		ignoreDefault, _ := _strconv.ParseBool(_os.Getenv("MAGEFILE_IGNOREDEFAULT"))
 		if ignoreDefault {
 			if err := list(); err != nil {
 				logger.Println("Error:", err)
-				os.Exit(1)
+				_os.Exit(1)
 			}
 			return
 		}
 		{{- if .DefaultFunc.Args}}
 		logger.Printf("not enough arguments for target \"{{.DefaultFunc.TargetName}}\", expected {{len .DefaultFunc.Args}}, got 0\n")
-		os.Exit(2)
+		_os.Exit(2)
 		{{- else}}
 		{{.DefaultFunc.ExecCode}}
 		handleError(logger, ret)
@@ -433,7 +433,7 @@ Options:
 	{{- else}}
 		if err := list(); err != nil {
 			logger.Println("Error:", err)
-			os.Exit(1)
+			_os.Exit(1)
 		}
 		return
 	{{- end}}
@@ -458,7 +458,7 @@ Options:
 					// note that expected and args at this point include the arg for the target itself
 					// so we subtract 1 here to show the number of args without the target.
 					logger.Printf("not enough arguments for target \"{{.TargetName}}\", expected %v, got %v\n", expected-1, len(args.Args)-1)
-					os.Exit(2)
+					_os.Exit(2)
 				}
 				if args.Verbose {
 					logger.Println("Running target:", "{{.TargetName}}")
@@ -475,7 +475,7 @@ Options:
 						// note that expected and args at this point include the arg for the target itself
 						// so we subtract 1 here to show the number of args without the target.
 						logger.Printf("not enough arguments for target \"{{.TargetName}}\", expected %v, got %v\n", expected-1, len(args.Args)-1)
-						os.Exit(2)
+						_os.Exit(2)
 					}
 					if args.Verbose {
 						logger.Println("Running target:", "{{.TargetName}}")
@@ -486,7 +486,7 @@ Options:
 		{{- end}}
 		default:
 			logger.Printf("Unknown target specified: %q\n", target)
-			os.Exit(2)
+			_os.Exit(2)
 		}
 	}
 }
